@@ -12,7 +12,7 @@ TRUSTED_BASE = [
 PROPS = {
     "C09": {
         "case_sets": ["lex"],
-        "ops": ["SCAN", "RESCAN", "NUM"],
+        "ops": ["SCAN", "NUM"],
         "lean_targets": ["PqlModel.Props.C09", "PqlModel.Props.C09b", "PqlModel.Props.C09Gaps"],
         "facts": ["keywords", "isAlphaRanges", "isDigitRanges", "isHexDigitRanges", "tokenKinds"],
         "rule": "SCAN: every string over the 25-symbol scanner alphabet up to length 3 (quick) / 4 (thorough), "
@@ -32,7 +32,7 @@ PROPS = {
     "C07": {
         "case_sets": ["parse"],
         "ops": ["PARSE", "PARSEV"],
-        "oracle_clauses": [r"c07-.*", r"c15-statement-count", r"unreadable-.*"],
+        "oracle_clauses": [r"c07-.*", r"c08-unaccounted", r"c15-statement-count", r"unreadable-.*"],
         "lean_targets": ["PqlModel.Props.C07"],
         "facts": ["precedence", "keywords", "joinTypes"],
         "rule": "PARSEV: programs generated from the grammar (every operator, every expression form incl. the `in` rule, "
@@ -53,7 +53,7 @@ PROPS = {
         "case_sets": ["parse"],
         "ops": ["PARSE", "PARSEV", "LINECOL"],
         "oracle_clauses": [r"c10-.*", r"unreadable-.*"],
-        "lean_targets": ["PqlModel.Props.C10", "PqlModel.Props.C08Full", "PqlModel.Props.C10Linecol", "PqlModel.Props.C10Failed"],
+        "lean_targets": ["PqlModel.Props.C10", "PqlModel.Props.C08Full", "PqlModel.Props.C10Linecol", "PqlModel.Props.C10Failed", "PqlModel.Props.C10Extent"],
         "facts": ["structFields", "spanUnion"],
         "rule": "same sources as C07 in multi-line / tab / comment / non-ASCII layouts; every span field and every Span() "
                 "result of every node (reflection) is compared with the model and checked against the token positions; "
